@@ -13,6 +13,7 @@
 (*  type B implements I { x:String q:String }   union U = A | B            *)
 (*  enum E { RED GREEN }  input In { k:Int=5 m:String r:Int! }             *)
 (*  input In2 { n:In l:[Int] e:E }   scalar Cu                             *)
+(*  input In3 { c:E=GREEN u:Cu="dflt" r:Int k:Int=5 }                      *)
 (*  Q.g(i fl st bo id e cu li lni lli le in lin in2                        *)
 (*      dflt=7 din={k:5,r:1} de=GREEN):Int                                 *)
 (*  Q.gni(ni:Int!) gne(ne:E!) gnli(nli:[Int]!) gnin(nin:In!) : Int          *)
@@ -56,7 +57,7 @@ S1 ==
                               Arg("lli", TList(TList(N("Int")))),
                               Arg("le", TList(N("E"))),
                               Arg("in", N("In")), Arg("lin", TList(N("In"))),
-                              Arg("in2", N("In2")),
+                              Arg("in2", N("In2")), Arg("in3", N("In3")),
                               ArgD("dflt", N("Int"), IntV("7")),
                               ArgD("din", N("In"), ObjV(<<[n |-> "k", v |-> IntV("5")], [n |-> "r", v |-> IntV("1")]>>)),
                               ArgD("de", N("E"), [k |-> "eint", v |-> "green#1"]) >>],
@@ -87,6 +88,10 @@ S1 ==
               << ArgD("k", N("Int"), IntV("5")), Arg("m", N("String")), Arg("r", TNN(N("Int"))) >>],
      In2 |-> [Ty("INPUT_OBJECT") EXCEPT !.inputs =
               << Arg("n", N("In")), Arg("l", TList(N("Int"))), Arg("e", N("E")) >>],
+     \* defaults whose internal value differs from their input form (enum, custom scalar)
+     In3 |-> [Ty("INPUT_OBJECT") EXCEPT !.inputs =
+              << ArgD("c", N("E"), [k |-> "eint", v |-> "green#1"]), ArgD("u", N("Cu"), [k |-> "cu", v |-> "dflt"]),
+                 Arg("r", N("Int")), ArgD("k", N("Int"), IntV("5")) >>],
      Cu |-> Ty("SCALAR"),
      M |-> [Ty("OBJECT") EXCEPT !.fields =
               << F("a", N("Int")), F("b", N("Int")), F("c", N("Int")), F("o", N("O")), F("l", TList(N("O"))) >>],
